@@ -134,7 +134,7 @@ def run(ctx):
                 bad.append(("unsorted-ok", "list_sorted_log_files can return Ok without sorting", None))
         rl = F.fn("WalRecovery::replay_log_file")
         one(rl, r"MemTable::insert$")
-        nxs = [c_ for c_ in r.find_calls(r"Iterator>::next$") if r.can_reach(c_.bb, rp.bb) and r.can_reach(rp.bb, c_.bb)]
+        nxs = [c_ for c_ in for_headers(r) if r.can_reach(c_.bb, rp.bb) and r.can_reach(rp.bb, c_.bb)]
         if not nxs:
             raise AnchorMissing("loop over the WAL files in recover")
         w = skipped_iteration(r, nxs[0], [rp.bb])
@@ -330,7 +330,7 @@ def run(ctx):
         if add.bb in seen:
             bad.append(("index-after-failed-write", "segment index entry can be added after a failed zone write", witness_path(b, seen, add.bb)))
         # every non-empty event type of the memtable is written: the only permitted skip is `events.is_empty()`
-        nxs = [c_ for c_ in b.find_calls(r"Iterator>::next$") if b.can_reach(c_.bb, w.bb) and b.can_reach(w.bb, c_.bb)]
+        nxs = [c_ for c_ in for_headers(b) if b.can_reach(c_.bb, w.bb) and b.can_reach(w.bb, c_.bb)]
         if not nxs:
             raise AnchorMissing("loop over event types around flush_one_type_inner")
         emp = [c_ for c_ in b.find_calls(r"Vec::is_empty$") if b.can_reach(nxs[0].bb, c_.bb) and b.can_reach(c_.bb, nxs[0].bb)]
